@@ -14,7 +14,8 @@
      (a) an `emit` statement in a function body is an impure operation;
      (b) in an initializer, an assignment target rooted at `self` must not go through a reference- or
          resource-typed member/element;
-     (c) attaching to a resource is an impure operation. *)
+     (c) attaching to a resource is an impure operation, and so is removing an attachment (the code only applies the
+         view-assignment rule to the base, which (b) lets through for `self`-rooted bases in initializers). *)
 From CV Require Export C07.Syntax.
 From CV Require Import Gen.GenC07Purity.
 From Coq Require Import String.
@@ -138,6 +139,7 @@ Fixpoint chk_exp (P : prog) (G : senv) (c : cctx) (ln : nat) (e : exp) {struct e
   | ECast e1 _ => chk_exp P G c ln e1
   | EAttach e1 => chk_exp P G c ln e1 ++ (if strict c then observe c ln else [])
   | EDestroy e1 => chk_exp P G c ln e1 ++ observe c ln
+  | ENilV => []
   end
 with chk_exps (P : prog) (G : senv) (c : cctx) (ln : nat) (es : exps) {struct es} : list nat :=
   match es with
@@ -156,6 +158,11 @@ with chk_stmt (P : prog) (G : senv) (c : cctx) (s : stmt) {struct s} : list nat 
        ++ fst (chk_stmts P G (with_depth c (S (depth c))) el), G)
   | SReturn ln e => (chk_exp P G c ln e, G)
   | SEmit ln e => (chk_exp P G c ln e ++ (if strict c then observe c ln else []), G)
+  (* check_variable_declaration.go: the second value transfer `let x <- t <- e` is checked by checkAssignment
+     (isSecondaryAssignment), hence by enforceViewAssignment, with the declaration as the reported statement *)
+  | SLet2 ln x T t e => (chk_exp P G c ln e ++ view_assign G c ln t, (x, mkSB (depth c) T KVar) :: G)
+  (* check_remove_statement.go: enforceViewAssignment(statement, statement.Value) *)
+  | SRemove ln t => (view_assign G c ln t ++ (if strict c then observe c ln else []), G)
   end
 with chk_stmts (P : prog) (G : senv) (c : cctx) (ss : stmts) {struct ss} : list nat * senv :=
   match ss with
